@@ -95,3 +95,14 @@ func VerifBodyFiles(ctx *RequestCtx) (main, reader fs.File) {
 	}
 	return nil, nil
 }
+
+// VerifBodyID returns the identity of the fsFile behind a response body produced by the FS handler (nil if none).
+func VerifBodyID(ctx *RequestCtx) any {
+	switch r := ctx.Response.bodyStream.(type) {
+	case *bigFileReader:
+		return r.ff
+	case *fsSmallFileReader:
+		return r.ff
+	}
+	return nil
+}
